@@ -171,7 +171,7 @@ def replay_c06(rec, verbose=False):
         return None
     exe = schedmc_exe()
     out = os.path.join(TMP, "replay-%d.json" % os.getpid())
-    r = subprocess.run([exe, "--script", d["script"], "--one", "%d,%d" % (d["a"], d["b"]), "--bound", str(d["bound"]), "--out", out],
+    r = subprocess.run([exe, "--script", d["script"], "--arena", str(d.get("arena", 1)), "--one", "%d,%d" % (d["a"], d["b"]), "--bound", str(d["bound"]), "--out", out],
                        stdout=subprocess.PIPE, stderr=subprocess.PIPE, text=True)
     if r.returncode == 3:
         raise HarnessError("schedule replay is not deterministic: " + r.stderr[-2000:])
@@ -190,10 +190,11 @@ def run_c06(prop, tier):
     exe = schedmc_exe()
     n0, bound = (72, 64) if q else (240, 64)
     jobs = []
-    for script, n in (("stop_isready", n0), ("isready_stop", n0), ("depth2_stop", min(n0, 120)), ("depth3_isready_stop", n0)):
+    for script, n, arena in (("stop_isready", n0, 1), ("isready_stop", n0, 1), ("depth2_stop", min(n0, 120), 1), ("depth3_isready_stop", n0, 1),
+                             ("stop_isready", n0, 2), ("isready_stop", n0 // 2, 2)):
         nsh = 8 if q else 16
         for i in range(nsh):
-            jobs.append(dict(argv=[exe, "--script", script, "--n0", str(n), "--bound", str(bound), "--shard", "%d/%d" % (i, nsh),
+            jobs.append(dict(argv=[exe, "--script", script, "--arena", str(arena), "--n0", str(n), "--bound", str(bound), "--shard", "%d/%d" % (i, nsh),
                                    "--deadline", str(_deadline(tier))], timeout=_deadline(tier) * 2 + 300))
     merged = driver.merge(driver.run_jobs(prop, tier, jobs))
     runs, reports = tsan_pass(tier)
